@@ -48,6 +48,9 @@ def showOutcome (o : Outcome) : String :=
   | .error e => "E " ++ showErr e ++ " | " ++ showWarns o.warns
   | .ok (a, b, c) => "OK " ++ showDesc a ++ " " ++ showDesc b ++ " " ++ showDesc c ++ " | " ++ showWarns o.warns
 
+def outDesc (a b : Bool) : InputDesc :=
+  { isNdarray := true, isMasked := false, maskAny := false, dtype := .float, shape := [1, 1, 1], hasInfNan := a, outOfRange := b }
+
 def step (line : String) : String :=
   match line.splitOn " " with
   | ["check", a, b, c] => match desc? a, desc? b, desc? c with
@@ -55,8 +58,7 @@ def step (line : String) : String :=
       | _, _, _ => "bad-op"
   | ["output", a, b] => match bool? a, bool? b with
       | some a, some b =>
-          showWarns (runOutputCheck outputSteps { isNdarray := true, isMasked := false, maskAny := false, dtype := .float,
-                                                 shape := [1, 1, 1], hasInfNan := a, outOfRange := b }).warns
+          showWarns (runOutputCheck outputSteps (outDesc a b)).warns
       | _, _ => "bad-op"
   | ["time", d, r, y, nO, nH, nF, tO, tH, tF] =>
       match Deb.ofClassName d, bool? r, bool? y, parseInt? nO, parseInt? nH, parseInt? nF, parseInt? tO, parseInt? tH, parseInt? tF with
